@@ -538,7 +538,9 @@ Proof.
   destruct (reserved_char rf2 dbg req units Hwf) as [S2 [H2 [Hs2 Hin2]]].
   rewrite H1, H2. f_equal. apply strict_sorted_unique; auto.
   intros x. rewrite Hin1, Hin2. apply reach_ext; try tauto.
-  intros a b. split; apply f_edge_policy; intros u e par s y Hocc Hs; apply Heq; auto.
+  intros a b. split; apply f_edge_policy; intros u e par s y Hocc Hs Hy.
+  - exact (proj1 (Heq u e par s y Hocc Hs) Hy).
+  - exact (proj2 (Heq u e par s y Hocc Hs) Hy).
 Qed.
 
 Lemma convert_filtered_policy_eq : forall rf1 rf2 dbg req units, wf_offsets units ->
